@@ -316,6 +316,8 @@ impl TomlReader {
         let script = verif_root().join("py/tomlread.py");
         let mut child = Command::new("python3")
             .arg(script)
+            .env("PYTHONUTF8", "1")
+            .env("PYTHONIOENCODING", "utf-8")
             .stdin(Stdio::piped())
             .stdout(Stdio::piped())
             .spawn()
@@ -328,12 +330,12 @@ impl TomlReader {
     /// Ok(value) or Err(parse error message of the independent reader)
     pub fn read(&mut self, text: &str) -> Result<TV, String> {
         let req = json!({"toml": text}).to_string();
-        self.stdin.write_all(req.as_bytes()).expect("tomlread write");
-        self.stdin.write_all(b"\n").expect("tomlread write");
-        self.stdin.flush().expect("tomlread flush");
+        self.stdin.write_all(req.as_bytes()).expect("harness: tomlread write");
+        self.stdin.write_all(b"\n").expect("harness: tomlread write");
+        self.stdin.flush().expect("harness: tomlread flush");
         let mut line = String::new();
-        self.stdout.read_line(&mut line).expect("tomlread read");
-        let v: Value = serde_json::from_str(&line).unwrap_or_else(|e| panic!("tomlread protocol: {e}: {line:?}"));
+        self.stdout.read_line(&mut line).expect("harness: tomlread read");
+        let v: Value = serde_json::from_str(&line).unwrap_or_else(|e| panic!("harness: tomlread protocol: {e}: {line:?}"));
         if v["ok"].as_bool() == Some(true) {
             Ok(TV::from_json(&v["v"]))
         } else {
